@@ -194,15 +194,16 @@ Proof.
   assert (Hp : pstream i).
   { destruct Hi as (H1 & H2 & H3 & H4). split; [|pose proof (zlen_nonneg (s_before i)); lia].
     unfold wstream. pose proof (zlen_nonneg (s_before i)). pose proof (zlen_nonneg (s_after i)). repeat split; try assumption; lia. }
-  pose proof (pstream_read 4 i Hp) as R. destruct (s_read 4 i) as [got i1]. destruct R as (_ & _ & _ & Lg & _ & Ee).
+  pose proof (pstream_read 4 i Hp) as R. destruct (s_read 4 i) as [got i1]. destruct R as (_ & _ & _ & Lg & Eg & Ee).
   assert (Hsz : s_size i = s_pos i).
   { destruct Hi as (H1 & H2 & H3 & H4). rewrite Ha in H4. change (zlen (@nil Z)) with 0 in H4. lia. }
   assert (L0 : rd_len i 4 = 0).
   { unfold rd_len. replace (s_size i <? 4 + s_pos i) with true by lia. replace (s_size i - s_pos i <=? 0) with true by lia. reflexivity. }
   assert (got = []) by (destruct got; [reflexivity|unfold zlen in Lg; cbn in Lg; lia]). subst got.
   change (merge_scalar 4 0 []) with 0. replace (0 =? sp_sig scan_p) with false by (symmetry; apply Z.eqb_neq; intros E; apply scan_sig_nonzero; symmetry; exact E).
-  assert (Ee' : s_eof i1 = true).
-  { rewrite Ee. unfold rd_short. replace (s_size i <? 4 + s_pos i) with true by lia. reflexivity. }
+  assert (Ee' : scan_stop scan_p i1 = true).
+  { unfold scan_stop. rewrite Ee, Eg. unfold rd_short. replace (s_size i <? 4 + s_pos i) with true by lia.
+    destruct (sp_stop_on_fail scan_p); reflexivity. }
   rewrite Ee'. reflexivity.
 Qed.
 
